@@ -33,10 +33,11 @@ type Spec struct {
 }
 
 type Tier struct {
-	Count   int     // seeded runs
-	Floor   bool    // systematic floor
-	BudgetS float64 // wall-clock cap per worker for the seeded part
-	StepCap int64
+	Count     int     // seeded runs
+	Floor     bool    // systematic floor
+	BudgetS   float64 // wall-clock cap per worker for the seeded part
+	StepCap   int64
+	RaceCount int // seeded runs of the -race batch (0 = none)
 }
 
 // Job / Output mirror the worker's types (overlay/internal/zzsim/zzmain).
@@ -218,6 +219,7 @@ func tmpBase(b *Build) string {
 // runWorkers runs one batch of workers and returns their outputs. A worker
 // that dies is reported in crashed (index of the run in progress, if known).
 func runWorkers(bin string, jobs []Job, dir string, env []string, timeout time.Duration) ([]*Output, []string, error) {
+	os.MkdirAll(dir, 0755)
 	outs := make([]*Output, len(jobs))
 	var crashed []string
 	var mu sync.Mutex
@@ -268,7 +270,7 @@ func runWorkers(bin string, jobs []Job, dir string, env []string, timeout time.D
 				lg, _ := os.ReadFile(logf)
 				pg, _ := os.ReadFile(j.Out + ".progress")
 				mu.Lock()
-				crashed = append(crashed, fmt.Sprintf("worker %d (%s): %v\nPROGRESS %s\n%s", j.Worker, j.Kind, err, strings.TrimSpace(strings.SplitN(string(pg), "\n", 2)[0]), tail(string(lg), 3000)))
+				crashed = append(crashed, fmt.Sprintf("worker %d (%s): %v\nPROGRESS %s\n%s", j.Worker, j.Kind, err, strings.TrimSpace(strings.SplitN(string(pg), "\n", 2)[0]), tail(string(lg), 20000)))
 				mu.Unlock()
 				return
 			}
@@ -399,69 +401,131 @@ func runCheck(prop, tier, replayPath string) int {
 	if len(kinds) == 0 {
 		kinds = []string{""}
 	}
-	var crashedAll []string
-	for _, kind := range kinds {
-		var jobs []Job
-		for w := 0; w < nw; w++ {
-			jobs = append(jobs, Job{Prop: prop, Tier: tier, Mode: "search", Seed: seed, Worker: w, Stride: nw, Count: t.Count, Floor: t.Floor,
-				Kind: kind, TmpDir: tmp, BudgetS: t.BudgetS, Samples: 1, MaxViol: 2, ShrinkS: 20, StepCap: t.StepCap})
-		}
-		outs, crashed, werr := runWorkers(bin, jobs, b.Dir, env, time.Duration(t.BudgetS*4+600)*time.Second)
-		if werr != nil {
-			fmt.Fprintln(os.Stderr, "HARNESS TROUBLE (exit 2):", werr)
-			return 2
-		}
-		for _, o := range outs {
-			a.add(o)
-		}
-		crashedAll = append(crashedAll, crashed...)
+	type batch struct {
+		bin   string
+		env   []string
+		count int
+		floor bool
+		race  bool
+		label string
 	}
-	if len(crashedAll) > 0 {
-		// A worker process died (fatal runtime error such as a stack overflow or
-		// "concurrent map writes", which cannot be recovered in-process). Re-run
-		// the run that was in flight alone: if the fresh process dies again the
-		// crash belongs to that seed and is a violation with a seed-mode replay
-		// file; otherwise it is harness trouble.
-		confirmed := 0
-		for ci, c := range crashedAll {
-			var kind string
-			var n int
-			if i := strings.Index(c, "PROGRESS "); i >= 0 {
-				fmt.Sscanf(c[i+9:], "%s %d", &kind, &n)
-			}
-			if kind == "" || ci >= 2 {
-				continue
-			}
-			job := Job{Prop: prop, Tier: tier, Mode: "search", Seed: seed, Worker: 0, Stride: 1, TmpDir: tmp, Samples: 0, MaxViol: 1, ShrinkS: 5, StepCap: t.StepCap}
-			if kind == "cell" {
-				job.OnlyCell = n + 1
-			} else {
-				job.Count = 1
-				job.FirstIdx = n
-			}
-			job.Kind = fmt.Sprintf("crashcheck%d", ci)
-			_, again, werr := runWorkers(bin, []Job{job}, b.Dir, env, 5*time.Minute)
-			if werr == nil && len(again) > 0 {
-				confirmed++
-				v := Violation{Check: prop + "/process-crash", Msg: "the worker process died while executing this run (fatal runtime error): " + firstLine(tail(again[0], 1500)),
-					Seed: seed, Index: -1, Cell: -1, Kind: "seed:" + kind}
-				if kind == "cell" {
-					v.Cell = n
-				} else {
-					v.Index = n
-				}
-				v.Trace = strings.Split(tail(again[0], 2500), "\n")
-				a.violations = append(a.violations, v)
-			}
+	batches := []batch{{bin: bin, env: env, count: t.Count, floor: t.Floor, label: ""}}
+	var raceBuild *Build
+	if spec.Race && (t.RaceCount > 0 || os.Getenv("VSIM_RACE_TIER") != "") {
+		rc := t.RaceCount
+		if rc == 0 {
+			rc = 4000
 		}
-		if confirmed == 0 {
-			fmt.Fprintln(os.Stderr, "WORKER CRASHED and the crash did not reproduce on the run in flight (exit 2, harness trouble):")
-			for _, c := range crashedAll {
-				fmt.Fprintln(os.Stderr, c)
-			}
+		rb, rerr := PrepareBuild(buildOpts{Tag: prop + "-race", NeedRoot: spec.Binary == "root", NeedTB: spec.Binary == "tb", Race: true, Corpus: spec.Corpus})
+		raceBuild = rb
+		defer rb.Cleanup()
+		if rerr != nil {
+			fmt.Fprintln(os.Stderr, "BUILD FAILED for the race tier (exit 2, not a violation):", rerr)
 			return 2
 		}
-		a.stopped = append(a.stopped, fmt.Sprintf("%d worker(s) died; their remaining seeds were not run", len(crashedAll)))
+		rbin := rb.SimTest
+		if spec.Binary == "tb" {
+			rbin = rb.TBTest
+		}
+		renv := append(append([]string{}, env...), "GORACE=halt_on_error=1 exitcode=66")
+		batches = append(batches, batch{bin: rbin, env: renv, count: rc, race: true, label: "race"})
+	}
+	raceRuns := int64(0)
+	for _, bt := range batches {
+		var crashedAll []string
+		for _, kind := range kinds {
+			var jobs []Job
+			for w := 0; w < nw; w++ {
+				jobs = append(jobs, Job{Prop: prop, Tier: tier, Mode: "search", Seed: seed, Worker: w, Stride: nw, Count: bt.count, Floor: bt.floor,
+					Kind: kind, TmpDir: tmp, BudgetS: t.BudgetS, Samples: 1, MaxViol: 2, ShrinkS: 20, StepCap: t.StepCap})
+				if bt.race {
+					jobs[len(jobs)-1].Seed = seed + 7777 // other seeds than the plain batch
+					jobs[len(jobs)-1].ShrinkS = 5
+				}
+			}
+			outs, crashed, werr := runWorkers(bt.bin, jobs, b.Dir+"/"+bt.label, bt.env, time.Duration(t.BudgetS*4+600)*time.Second)
+			if werr != nil {
+				fmt.Fprintln(os.Stderr, "HARNESS TROUBLE (exit 2):", werr)
+				return 2
+			}
+			for _, o := range outs {
+				if bt.race && o != nil {
+					raceRuns += o.Runs
+					for i := range o.Violations {
+						o.Violations[i].Kind = "race-build:" + o.Violations[i].Kind
+					}
+				}
+				a.add(o)
+			}
+			crashedAll = append(crashedAll, crashed...)
+		}
+		if len(crashedAll) > 0 {
+			// A worker process died: a fatal runtime error that cannot be recovered
+			// in-process (stack overflow, "concurrent map writes"), or - in the race
+			// build - the race detector halting on a report. Re-run the run that was
+			// in flight alone: if the fresh process dies again the crash belongs to
+			// that seed and is a violation with a seed-mode replay file; otherwise it
+			// is harness trouble.
+			confirmed := 0
+			for ci, c := range crashedAll {
+				var kind string
+				var n int
+				if i := strings.Index(c, "PROGRESS "); i >= 0 {
+					fmt.Sscanf(c[i+9:], "%s %d", &kind, &n)
+				}
+				if kind == "" || ci >= 2 {
+					continue
+				}
+				job := Job{Prop: prop, Tier: tier, Mode: "search", Seed: seed, Worker: 0, Stride: 1, TmpDir: tmp, Samples: 0, MaxViol: 1, ShrinkS: 5, StepCap: t.StepCap}
+				if bt.race {
+					job.Seed = seed + 7777
+				}
+				if kind == "cell" {
+					job.OnlyCell = n + 1
+				} else {
+					job.Count = 1
+					job.FirstIdx = n
+				}
+				job.Kind = ""
+				_, again, werr := runWorkers(bt.bin, []Job{job}, b.Dir+"/"+bt.label+fmt.Sprintf("crashcheck%d", ci), bt.env, 5*time.Minute)
+				if werr == nil && len(again) > 0 {
+					check := prop + "/process-crash"
+					msg := "the worker process died while executing this run (fatal runtime error): " + firstLine(tail(again[0], 1500))
+					if strings.Contains(again[0], "WARNING: DATA RACE") {
+						if !raceInCodeUnderTest(again[0]) {
+							fmt.Fprintln(os.Stderr, "RACE REPORT WITH HARNESS FRAMES ONLY (exit 2, harness defect):\n"+tail(again[0], 4000))
+							return 2
+						}
+						check = prop + "/data-race"
+						msg = "the race detector reports a data race in code under test under this schedule: " + raceSummary(again[0])
+					}
+					confirmed++
+					v := Violation{Check: check, Msg: msg, Seed: job.Seed, Index: -1, Cell: -1, Kind: "seed:" + kind}
+					if bt.race {
+						v.Kind = "race-seed:" + kind
+					}
+					if kind == "cell" {
+						v.Cell = n
+					} else {
+						v.Index = n
+					}
+					v.Trace = strings.Split(tail(again[0], 12000), "\n")
+					a.violations = append(a.violations, v)
+				}
+			}
+			if confirmed == 0 {
+				fmt.Fprintln(os.Stderr, "WORKER CRASHED and the crash did not reproduce on the run in flight (exit 2, harness trouble):")
+				for _, c := range crashedAll {
+					fmt.Fprintln(os.Stderr, c)
+				}
+				return 2
+			}
+			a.stopped = append(a.stopped, fmt.Sprintf("%d worker(s) died; their remaining seeds were not run", len(crashedAll)))
+		}
+	}
+	_ = raceBuild
+	if raceRuns > 0 {
+		a.counts["race-tier.runs (-race build, baton invisible to the detector)"] = raceRuns
 	}
 
 	// violations -> replay files, known findings
@@ -492,9 +556,15 @@ func runCheck(prop, tier, replayPath string) int {
 		path := filepath.Join(verifDir, "replays", fmt.Sprintf("%s-%d-%d.json", prop, seed, len(vioLines)))
 		rfile := ReplayFile{Property: prop, Check: v.Check, Message: v.Msg, Kind: v.Kind, Seed: seed, RunSeed: v.RunSeed, Index: v.Index, Cell: v.Cell,
 			Mode: "choices", Choices: v.Choices, OrigLen: v.OrigLen, Shrink: v.ShrinkRun, Trace: v.Trace}
-		if strings.HasPrefix(v.Kind, "seed:") {
+		if strings.HasPrefix(v.Kind, "seed:") || strings.HasPrefix(v.Kind, "race-seed:") {
 			rfile.Mode = "seed"
+			rfile.Seed = v.Seed
+			rfile.Race = strings.HasPrefix(v.Kind, "race-seed:")
 			rfile.Kind = ""
+		}
+		if strings.HasPrefix(v.Kind, "race-build:") {
+			rfile.Race = true
+			rfile.Kind = strings.TrimPrefix(v.Kind, "race-build:")
 		}
 		data, _ := json.MarshalIndent(rfile, "", " ")
 		os.WriteFile(path, data, 0644)
@@ -535,6 +605,9 @@ func doReplay(spec Spec, b *Build, bin, tmp string, env []string, rf *ReplayFile
 			job.FirstIdx = rf.Index
 		}
 	}
+	if rf.Race {
+		env = append(append([]string{}, env...), "GORACE=halt_on_error=1 exitcode=66")
+	}
 	outs, crashed, err := runWorkers(bin, []Job{job}, b.Dir, env, 10*time.Minute)
 	if err != nil {
 		fmt.Fprintln(os.Stderr, "HARNESS TROUBLE:", err)
@@ -543,7 +616,7 @@ func doReplay(spec Spec, b *Build, bin, tmp string, env []string, rf *ReplayFile
 	if len(crashed) > 0 {
 		fmt.Println("replayed run crashed the worker process:")
 		fmt.Println(crashed[0])
-		if rf.Check == spec.Prop+"/process-crash" {
+		if rf.Check == spec.Prop+"/process-crash" || (rf.Check == spec.Prop+"/data-race" && strings.Contains(crashed[0], "WARNING: DATA RACE")) {
 			fmt.Printf("VIOLATION property=%s replay=%s\n", spec.Prop, path)
 			return 1
 		}
@@ -574,6 +647,55 @@ func doReplay(spec Spec, b *Build, bin, tmp string, env []string, rf *ReplayFile
 	}
 	fmt.Println("replay did not reproduce a violation on this tree")
 	return 0
+}
+
+// raceInCodeUnderTest reports whether a race report has, at the top of one of
+// its access stacks, a frame of thriftrw code that is not the harness.
+func raceInCodeUnderTest(log string) bool {
+	lines := strings.Split(log, "\n")
+	for i, l := range lines {
+		t := strings.TrimSpace(l)
+		if strings.HasPrefix(t, "Write at ") || strings.HasPrefix(t, "Read at ") || strings.HasPrefix(t, "Previous write at ") || strings.HasPrefix(t, "Previous read at ") ||
+			strings.HasPrefix(t, "Atomic") || strings.HasPrefix(t, "Previous atomic") {
+			// the first frames below: skip runtime frames, take the first module frame
+			for j := i + 1; j < len(lines) && strings.TrimSpace(lines[j]) != ""; j += 2 {
+				f := strings.TrimSpace(lines[j])
+				if strings.HasPrefix(f, "runtime.") || strings.HasPrefix(f, "sync.") || strings.HasPrefix(f, "internal/") {
+					continue
+				}
+				if strings.HasPrefix(f, "go.uber.org/thriftrw/") && !strings.Contains(f, "/internal/zzsim/") {
+					return true
+				}
+				break
+			}
+		}
+	}
+	return false
+}
+
+func raceSummary(log string) string {
+	var out []string
+	lines := strings.Split(log, "\n")
+	for i, l := range lines {
+		t := strings.TrimSpace(l)
+		if strings.Contains(t, " at 0x") && (strings.HasPrefix(t, "Write") || strings.HasPrefix(t, "Read") || strings.HasPrefix(t, "Previous")) {
+			for j := i + 1; j < len(lines) && strings.TrimSpace(lines[j]) != ""; j += 2 {
+				f := strings.TrimSpace(lines[j])
+				if strings.HasPrefix(f, "go.uber.org/thriftrw/") && !strings.Contains(f, "/internal/zzsim/") {
+					loc := ""
+					if j+1 < len(lines) {
+						loc = strings.TrimSpace(lines[j+1])
+					}
+					out = append(out, strings.Fields(t)[0]+" in "+f+" "+loc)
+					break
+				}
+			}
+		}
+		if len(out) >= 2 {
+			break
+		}
+	}
+	return strings.Join(out, " / ")
 }
 
 func firstLine(s string) string {
@@ -633,29 +755,29 @@ func writeEvidence(spec Spec, tier string, seed uint64, a *agg, b *Build, wall f
 		rph = float64(a.runs) / wall * 3600
 	}
 	cov := map[string]interface{}{
-		"evaluations":            a.runs,
-		"distinct_nontrivial":    len(a.keys),
-		"rule":                   spec.Rule,
-		"samples":                a.samples,
-		"runs_per_hour":          int64(rph),
-		"seeds":                  fmt.Sprintf("VERIF_SEED=%d; run seed i = splitmix(VERIF_SEED, i), i in [0,%d); floor cells seeded splitmix(VERIF_SEED, 0xf100, cell)", seed, a.runs),
-		"simulated_steps_total":  a.steps,
-		"simulated_time":         "the code under test reads no clock and has no timers; simulated time is the scheduler step counter (simulated_steps_total)",
-		"task_switches_total":    a.switches,
-		"distinct_interleavings": len(a.sched),
+		"evaluations":                    a.runs,
+		"distinct_nontrivial":            len(a.keys),
+		"rule":                           spec.Rule,
+		"samples":                        a.samples,
+		"runs_per_hour":                  int64(rph),
+		"seeds":                          fmt.Sprintf("VERIF_SEED=%d; run seed i = splitmix(VERIF_SEED, i), i in [0,%d); floor cells seeded splitmix(VERIF_SEED, 0xf100, cell)", seed, a.runs),
+		"simulated_steps_total":          a.steps,
+		"simulated_time":                 "the code under test reads no clock and has no timers; simulated time is the scheduler step counter (simulated_steps_total)",
+		"task_switches_total":            a.switches,
+		"distinct_interleavings":         len(a.sched),
 		"distinct_interleavings_measure": "FNV hash of the sequence of tasks chosen at scheduling points with >= 2 runnable tasks",
-		"distinct_map_orders":    len(a.maps),
-		"fault_kinds_fired":      faults,
-		"probes":                 probes,
-		"counts":                 counts,
-		"components_real":        spec.RealComp,
-		"components_stubbed":     spec.StubComp,
-		"runs_abandoned":         a.aborted,
-		"workers":                nw,
-		"known_findings_hit":     kh,
-		"out_of_scope_observations": a.notes,
-		"build_wall_s":           b.Wall,
-		"stopped_early":          a.stopped,
+		"distinct_map_orders":            len(a.maps),
+		"fault_kinds_fired":              faults,
+		"probes":                         probes,
+		"counts":                         counts,
+		"components_real":                spec.RealComp,
+		"components_stubbed":             spec.StubComp,
+		"runs_abandoned":                 a.aborted,
+		"workers":                        nw,
+		"known_findings_hit":             kh,
+		"out_of_scope_observations":      a.notes,
+		"build_wall_s":                   b.Wall,
+		"stopped_early":                  a.stopped,
 	}
 	if spec.Corpus {
 		cov["generated_types_in_registry"] = b.Registry
